@@ -296,3 +296,14 @@ func (v *VerifIndexedSegment) FindKeyPos(key string) (int, error) { return v.seg
 func (v *VerifIndexedSegment) FindStartPos(key string) int {
 	return v.seg.findStartKeyInclusivePos([]byte(key))
 }
+
+// VerifSnapshotKey renders a snapshot that is a segmentStack (e.g. the `higher` argument of LowerLevelUpdate).
+func VerifSnapshotKey(s Snapshot) string {
+	ss, ok := s.(*segmentStack)
+	if !ok {
+		return fmt.Sprintf("%T", s)
+	}
+	var sb strings.Builder
+	verifStack(&sb, ss, map[uint64]int{0: 0}, false)
+	return sb.String()
+}
